@@ -76,7 +76,8 @@ PAGES = {
     "luaTimeout": ("expand", "a{{#invoke:S|loop}}b", {"timeout": 1}),
     "parseExpandAll": ("parse", "== h ==\n{{T1|'''x}}\n* {{T1|y}}\n{|\n| {{A}}\n|}", {"expand_all": True}),
     "otherContextWithExtTags": ("other", "", {}),
-    "extTagPage": ("parse", "<foo a=b>x</foo> <hiero>y</hiero> <span>z</span>", {}),
+    "otherContextRedefiningTag": ("other2", "", {}),
+    "extTagPage": ("parse", "<foo a=b>x</foo> <hiero>y</hiero> <span>z</span>\n<references>\n<ref name=r>t</ref>\n</references>\n<br>w</br>", {}),
 }
 
 
@@ -120,6 +121,15 @@ def process(ctx, kind, scratch, n):
 
         other = Wtp(db_path=str(Path(scratch) / f"other{n}" / "o.db") if (Path(scratch) / f"other{n}").mkdir() is None else None,
                     quiet=True, quiet_output=True, extension_tags={"foo": {"parents": ["phrasing"], "content": ["phrasing"]}})
+        other.db_conn.close()
+        return ["other-context-created"]
+    if mode == "other2":
+        from wikitextprocessor import Wtp
+
+        (Path(scratch) / f"other{n}").mkdir()
+        other = Wtp(db_path=str(Path(scratch) / f"other{n}" / "o.db"), quiet=True, quiet_output=True,
+                    extension_tags={"references": {"parents": ["flow"], "content": ["flow", "phrasing"], "no-end-tag": True},
+                                    "br": {"parents": ["phrasing"], "content": ["phrasing"]}})
         other.db_conn.close()
         return ["other-context-created"]
     ctx.start_page("Page " + kind)
